@@ -137,7 +137,7 @@ fn operand_class(s: &Snap) -> String {
 fn sweep(ctx: &mut Ctx) {
     let (mut is, names) = new_iset();
     let cache = sorted_cache(&is);
-    let per_name = ctx.n(if ctx.profile == "debug" { 250 } else { 600 }, if ctx.profile == "debug" { 3000 } else { 12000 });
+    let per_name = ctx.n(if ctx.profile == "debug" { 600 } else { 2500 }, if ctx.profile == "debug" { 3000 } else { 12000 });
     let mut case: u64 = 0;
     for name in names.iter() {
         for k in 0..per_name {
@@ -210,8 +210,8 @@ fn programs(ctx: &mut Ctx, src: Src) {
         Src::PushrGenerator => 3u64,
     };
     let nprog = match src {
-        Src::Grammar => ctx.n(if ctx.profile == "debug" { 2500 } else { 8000 }, if ctx.profile == "debug" { 40000 } else { 200000 }),
-        Src::PushrGenerator => ctx.n(if ctx.profile == "debug" { 1200 } else { 4000 }, if ctx.profile == "debug" { 20000 } else { 100000 }),
+        Src::Grammar => ctx.n(if ctx.profile == "debug" { 8000 } else { 40000 }, if ctx.profile == "debug" { 40000 } else { 200000 }),
+        Src::PushrGenerator => ctx.n(if ctx.profile == "debug" { 4000 } else { 16000 }, if ctx.profile == "debug" { 20000 } else { 100000 }),
     };
     for k in 0..nprog as u64 {
         let case = label * 10_000_000 + k;
